@@ -188,6 +188,16 @@ func (s *Session) ref(t *sym.Term) string {
 	return name
 }
 
+// HasDecl reports whether a symbol is declared in an open scope.
+func (s *Session) HasDecl(name string) bool { return s.declared[name] }
+
+// Declare makes sure a variable is declared in the current scope.
+func (s *Session) Declare(t *sym.Term) {
+	if !t.Const {
+		s.ref(t)
+	}
+}
+
 func (s *Session) Assert(t *sym.Term) {
 	if t.IsTrue() {
 		return
